@@ -580,6 +580,12 @@ PPL::Grid::relation_with(const Grid_Generator& g) const {
     return Poly_Gen_Relation::subsumes();
   }
 
+  // The congruences may be inconsistent without the grid being
+  // marked empty yet.
+  if (is_empty()) {
+    return Poly_Gen_Relation::nothing();
+  }
+
   if (!congruences_are_up_to_date()) {
     update_congruences();
   }
